@@ -237,7 +237,10 @@ def key_domain(k):
     if k >= len(KEY_STRINGS):
         return KEY_STRINGS
     step = 7
-    order = [KEY_STRINGS[(i * step) % len(KEY_STRINGS)] for i in range(len(KEY_STRINGS))]
+    # start with a core that exercises every relation of the score table (same key, fifth, relative major/minor in both
+    # directions, parallel, 'other' mode, enharmonic spellings); the rest follows by stride
+    core = ['c major', 'a minor', 'g major', 'e minor', 'c minor', 'eb major', 'f# other', 'db major', 'bb minor', 'b minor', 'd major', 'gb minor']
+    order = [k for k in core if k in KEY_STRINGS] + [KEY_STRINGS[(i * step) % len(KEY_STRINGS)] for i in range(len(KEY_STRINGS))]
     seen, out = set(), []
     for x in order + KEY_STRINGS:
         if x not in seen:
